@@ -103,11 +103,13 @@ Section WithHash.
     s_registry : list string;              (* Inner::registry *)
     s_disk : list string;                  (* databases whose metadata object exists in the object store *)
     s_primary : string;
-    s_max : nat                            (* ServerOptions::max_databases *)
+    s_max : nat;                           (* ServerOptions::max_databases *)
+    s_pkeys : list (string * hash);        (* the server:api_keys extension of the primary database, as last written *)
+    s_preg : list string                   (* the server:databases extension of the primary database, as last written *)
   }.
 
   Definition init_state (admin : option string) (primary : string) (max : nat) : sstate :=
-    mk_state (option_map hash_of admin) [] [primary] [] [primary] primary max.
+    mk_state (option_map hash_of admin) [] [primary] [] [primary] primary max [] [].
 
   (* AppState::authorize *)
   Definition state_authorize (rules : list rule) (st : sstate) (sc : scope) (presented : option string) : outcome :=
@@ -126,7 +128,9 @@ Section WithHash.
 
   Inductive opres := OpOk | OpInvalidInput | OpConflict | OpAlreadyExists | OpNotFound | OpLimit.
 
-  Definition set_keys st k := mk_state st.(s_admin) k st.(s_open) st.(s_registry) st.(s_disk) st.(s_primary) st.(s_max).
+  (* store_api_key: change the in-memory map, then persist_api_keys writes the whole map into the extension *)
+  Definition set_keys st k :=
+    mk_state st.(s_admin) k st.(s_open) st.(s_registry) st.(s_disk) st.(s_primary) st.(s_max) k st.(s_preg).
 
   (* AppState::check_api_key_binding *)
   Definition check_binding (st : sstate) (name key : string) : option opres :=
@@ -154,8 +158,9 @@ Section WithHash.
         | MOpen, false => (st, OpNotFound)
         | _, _ =>
           let keys := match key with Some k => insert name (hash_of k) st.(s_keys) | None => st.(s_keys) end in
+          let pkeys := match key with Some _ => keys | None => st.(s_pkeys) end in      (* store_api_key persists *)
           (mk_state st.(s_admin) keys (add_str name st.(s_open)) (add_str name st.(s_registry))
-                    (add_str name st.(s_disk)) st.(s_primary) st.(s_max), OpOk)
+                    (add_str name st.(s_disk)) st.(s_primary) st.(s_max) pkeys (add_str name st.(s_registry)), OpOk)   (* persist_registry *)
         end
     end.
 
@@ -164,7 +169,7 @@ Section WithHash.
     if String.eqb name st.(s_primary) then (st, OpInvalidInput)
     else if negb (mem name st.(s_open)) && negb (mem name st.(s_registry)) then (st, OpNotFound)
     else (mk_state st.(s_admin) st.(s_keys) (remove_str name st.(s_open)) (remove_str name st.(s_registry))
-                   st.(s_disk) st.(s_primary) st.(s_max), OpOk).
+                   st.(s_disk) st.(s_primary) st.(s_max) st.(s_pkeys) (remove_str name st.(s_registry)), OpOk).
 
   (* AppState::require_known_db *)
   Definition known_db (st : sstate) (name : string) : bool := mem name st.(s_open) || mem name st.(s_registry).
@@ -180,12 +185,13 @@ Section WithHash.
   Definition remove_db_api_key (st : sstate) (name : string) : sstate * opres :=
     if known_db st name then (set_keys st (remove_key name st.(s_keys)), OpOk) else (st, OpNotFound).
 
-  (* AppState::connect over the persisted state *)
+  (* AppState::connect over the same object store: the key map and the registry are what the two
+     extensions of the primary database say, not what the previous process had in memory *)
   Definition restart (st : sstate) : sstate :=
-    mk_state st.(s_admin) st.(s_keys)
-             (st.(s_primary) :: filter (fun n => negb (String.eqb n st.(s_primary)) && mem n st.(s_disk)) st.(s_registry))
-             (filter (fun n => negb (String.eqb n st.(s_primary))) st.(s_registry))
-             st.(s_disk) st.(s_primary) st.(s_max).
+    let reg := filter (fun n => negb (String.eqb n st.(s_primary))) st.(s_preg) in
+    mk_state st.(s_admin) st.(s_pkeys)
+             (st.(s_primary) :: filter (fun n => mem n st.(s_disk)) reg)
+             reg st.(s_disk) st.(s_primary) st.(s_max) st.(s_pkeys) st.(s_preg).
 
   Definition apply_op (st : sstate) (o : op) : sstate * opres :=
     match o with
